@@ -3,8 +3,10 @@ import PymocaVerif.Lemmas.PyPrint
 # C24 — the SymPy backend emits code with the flat model's meaning
 
 Property theorems only (helper lemmas: `Lemmas/PyGrammar.lean`, `Lemmas/PyPrint.lean`).
-Model: `Model/PyGrammar.lean` (Python expression grammar, printers `prCur` = tree as committed,
-`prFix` = with proposed fix C24-1) and `Model/PyPrint.lean` (mangling, classification, evaluator).
+Model: `Model/PyGrammar.lean` (Python expression grammar, printers `prFix` = current tree, i.e. with
+fix C24-1, `prCur` = the printer before it) and `Model/PyPrint.lean` (mangling, classification
+`classifyFix` = current tree, `classify` = before fix C24-4, evaluator).  The harness detects on every
+run which variant the real code implements and compares it with that one.
 All statements are for arbitrary expressions / symbol lists / builtin lists — no size bound.
 -/
 namespace PymocaVerif.PyPrint
@@ -15,7 +17,7 @@ private def v (s : String) : E := E.atom (Atom.name (nm s))
 
 /-! ## precedence: the printed equation parses back to the flat equation -/
 
-/-- With the parenthesising printer (fix C24-1) the text of every element of `self.eqs`, read by
+/-- With the parenthesising printer (the current tree, fix C24-1) the text of every element of `self.eqs`, read by
     the Python grammar, is exactly lhs − rhs of the flat equation (with mangled names): no
     operator is regrouped, whatever the nesting. -/
 theorem py_parse_print (B : List Name) (l r : E) :
@@ -53,7 +55,7 @@ theorem py_parse_print_meaning {α : Type} (A : Alg α) (B : List Name) (vars : 
 example : (∀ a ∈ [nm "x", nm "a.b"], ∀ b ∈ [nm "x", nm "a.b"],
     mangleRef [] a = mangleRef [] b → a = b) := by decide +kernel
 
-/-- The printer as committed pastes operands without parentheses.  It is right exactly on the
+/-- The printer before fix C24-1 pasted operands without parentheses.  It is right exactly on the
     expressions in natural precedence form (`NoParen`: every operand already binds at least as
     tightly as its context).  PARTIAL: for the other expressions the statement is false, see
     `cur_printer_regroups`. -/
@@ -68,7 +70,7 @@ example : NoParen pyTbl 1 (E.der (v "x")) ∧
     NoParen pyTbl 0 (E.bin 1 (E.bin 2 (E.pre 1 (v "x")) (E.bin 4 (v "p") (E.pre 1 (v "c")))) (E.call (nm "sin") (v "time"))) := by
   simp [NoParen, pyTbl, v]
 
-/-- Counterexample for the printer as committed: `y = (a - b) * c` is written `y - (a - b * c)`,
+/-- Counterexample for the printer before fix C24-1: `y = (a - b) * c` is written `y - (a - b * c)`,
     which Python reads as `y - (a - (b * c))`; at a = 1, b = 2, c = 3, y = 0 the values differ. -/
 theorem cur_printer_regroups :
     ∃ (l r e' : E) (ρ : Env Int),
@@ -286,7 +288,7 @@ theorem variables_match (syms : List Sym) (hreg : ∀ s ∈ syms, Regular s)
 example : Regular ⟨nm "y", ["output"]⟩ ∧ isVar ⟨nm "y", ["output"]⟩ = true := by
   refine ⟨⟨by decide, by decide, by decide⟩, by decide⟩
 
-/-- With proposed fix C24-4 the same holds without restricting the prefixes to the five class
+/-- In the current tree (fix C24-4) the same holds without restricting the prefixes to the five class
     prefixes: `discrete` (or any other) prefix no longer makes a variable disappear. -/
 theorem variables_match_with_fix (syms : List Sym) (hreg : ∀ s ∈ syms, WeakRegular s)
     (hnames : (syms.map (·.name)).Nodup) (s : Sym) :
@@ -347,8 +349,8 @@ example : WeakRegular ⟨nm "d", ["discrete"]⟩ ∧
     (⟨nm "d", ["discrete"]⟩ : Sym) ∈ (classifyFix [⟨nm "d", ["discrete"]⟩, ⟨nm "p", ["parameter"]⟩]).v := by
   refine ⟨⟨by decide, by decide⟩, by decide +kernel⟩
 
-/-- Outside the regular symbols the classification loses variables: a symbol whose only prefix is
-    `discrete` appears in no list at all. -/
+/-- Before fix C24-4 the classification lost variables outside the regular symbols: a symbol whose
+    only prefix is `discrete` appeared in no list at all. -/
 theorem discrete_symbol_in_no_list (n : Name) :
     let L := classify [⟨n, ["discrete"]⟩]
     L.x = [] ∧ L.v = [] ∧ L.c = [] ∧ L.p = [] ∧ L.u = [] ∧ L.y = [] := by
